@@ -4,6 +4,7 @@ import random as _random
 from rt import moltools as T, gen as G
 from rt.oracles import symmetry as SY
 from chython import smiles
+from rt.enum import iso_key, small_graphs, ATOM_TYPES, SMALL, build_small
 
 ID = 'C01'
 RULE = ('base molecules = corpus sample + curated feature molecules + ring assemblies, partly decorated through the '
@@ -20,11 +21,11 @@ ASSUMPTIONS = ['CachedMethods compatibility shim (DESIGN.md section 1)',
 CONFIG = {
     'quick': {'shards': 16, 'budget_s': 100, 'n_corpus': 1100, 'n_ring': 160, 'k_redescr': 3, 'k_writer': 3, 'k_rdkit': 2,
               'floors': {'evaluations': 4000, 'distinct_nontrivial': 600, 'descr.redescribe': 1500,
-                         'descr.writer': 1500, 'descr.rdkit': 500}},
+                         'descr.writer': 1500, 'descr.rdkit': 500, 'small.graphs': 3000}, 'exhaustive_subspaces': ['labelled connected graphs <= 4 atoms (see rt/enum.py SMALL)']},
     'thorough': {'shards': 16, 'budget_s': 1100, 'n_corpus': 4200, 'n_ring': 3000, 'k_redescr': 8, 'k_writer': 8,
                  'k_rdkit': 6,
                  'floors': {'evaluations': 40000, 'distinct_nontrivial': 3000, 'descr.redescribe': 15000,
-                            'descr.writer': 15000, 'descr.rdkit': 5000}},
+                            'descr.writer': 15000, 'descr.rdkit': 5000, 'small.graphs': 50000}, 'exhaustive_subspaces': ['labelled connected graphs <= 5 atoms (see rt/enum.py SMALL)']},
 }
 WRITER_SPECS = ['r', 'ra', 'rA', 'rh', 'rAa']
 
@@ -185,6 +186,7 @@ def worker(ctx):
             for bits, v in G.stereo_variants(m, rng, limit=4):
                 ctx.count('base.stereo-variant')
                 check_base(ctx, 'stereo-variant', str(v), v, cfg, rng)
+    small_invariance(ctx)
     nring = cfg['n_ring'] // ctx.nshards
     for i in range(nring):
         if ctx.out_of_time():
@@ -195,6 +197,45 @@ def worker(ctx):
             continue
         ctx.count('base.ring-assembly')
         check_base(ctx, 'ring', 'ring-assembly:' + str(m), m, cfg, rng)
+
+
+def small_invariance(ctx):
+    """every labelled graph up to the enumerated size: all labellings of one isomorphism class give one string"""
+    seen = {}
+    idx = 0
+    for n, (orders, ntypes) in SMALL[ctx.tier].items():
+        for lab, edges in small_graphs(n, orders, ntypes):
+            idx += 1
+            if not ctx.mine(idx // 64):
+                continue
+            if ctx.out_of_time():
+                return
+            m = build_small(lab, edges)
+            if any(a.implicit_hydrogens is None for _, a in m.atoms()):
+                continue
+            s = str(m)
+            k = repr(iso_key([ATOM_TYPES[t] for t in lab], edges))
+            ctx.count('small.graphs')
+            ctx.evaluations += 1
+            if k in seen and seen[k] != s:
+                _small_violation(ctx, k, seen[k], s)
+            seen.setdefault(k, s)
+    ctx.blobs['small'] = seen
+
+
+def _small_violation(ctx, k, a, b):
+    ctx.violation('canonical-str-differs/small-graph-relabelling', 'isomorphic labelled graphs %s: %s vs %s' % (k, a, b),
+                  {'kind': 'small', 'key': k, 'a': a, 'b': b, 'src': a})
+
+
+def finalize(ctx, blobs):
+    allk = {}
+    for b in blobs:
+        for k, s in (b.get('small') or {}).items():
+            if k in allk and allk[k] != s:
+                _small_violation(ctx, k, allk[k], s)
+            allk.setdefault(k, s)
+    ctx.counters['small.isomorphism-classes'] = len(allk)
 
 
 def replay(ctx, mechanism, w):
